@@ -23,8 +23,10 @@ type Op struct {
 
 type Prog struct {
 	Ops  []Op                   `json:"ops"`
-	Term string                 `json:"term"` // bindings, fresh, null, nonobject, throw, loop, emitbad
+	Term string                 `json:"term"` // bindings, fresh, null, nonobject, throw, loop, emitbad, retbad, ifeq
 	Kvs  map[string]interface{} `json:"kvs,omitempty"`
+	K    string                 `json:"k,omitempty"` // ifeq: the binding compared
+	J    interface{}            `json:"j,omitempty"` // ifeq: the scalar it must equal
 }
 
 type Act struct {
@@ -78,6 +80,8 @@ func (p *Prog) JS() string {
 		sb.WriteString("for(;;){}\n")
 	case "emitbad":
 		sb.WriteString("_.out(function(){}); return _.bindings;\n")
+	case "ifeq":
+		sb.WriteString(fmt.Sprintf("return (b[%s] === %s) ? _.bindings : null;\n", jsText(p.K), jsText(p.J)))
 	case "retbad":
 		if len(p.Ops)%2 == 0 {
 			sb.WriteString("return {x: function(){}};\n")
@@ -174,6 +178,16 @@ func (p *Prog) Native(exeOnError bool) core.Action {
 		case "null":
 			exe.Bs = nil
 			return exe, nil
+		case "ifeq":
+			if b == nil {
+				return fail()
+			}
+			if v, have := b[p.K]; have && canon(v) == canon(p.J) {
+				exe.Bs = b
+			} else {
+				exe.Bs = nil
+			}
+			return exe, nil
 		default:
 			return fail()
 		}
@@ -229,6 +243,8 @@ func (p *Prog) coq() string {
 		term = "TEmitBad"
 	case "retbad":
 		term = "TRetBad"
+	case "ifeq":
+		term = "(TRetIfEq " + coqString(p.K) + " " + mustCoqJSON(p.J) + ")"
 	}
 	return "(mk_prog " + coqList(ops) + " " + term + ")"
 }
@@ -307,6 +323,11 @@ func (g *G) prog(guard bool) *Prog {
 		}
 	} else if guard {
 		switch {
+		case k < 25:
+			// accepts some candidates and rejects others
+			p.Term = "ifeq"
+			p.K = g.pick(append(append([]string{}, plainVars...), bindKeys...))
+			p.J = g.scalar()
 		case k < 55:
 			p.Term = "bindings"
 		case k < 85:
